@@ -341,9 +341,17 @@ func (e *Executor) execute(ctx context.Context, isRootPlan bool, p *Plan, keys [
 		}
 		optionalRespMetadata = append(optionalRespMetadata, optionalRespQueryMetaData)
 	} else {
-		res = []interface{}{
-			map[string]interface{}{},
+		root := map[string]interface{}{}
+		// The only selections the coordinator resolves itself are __typename
+		// selections on the root object.
+		if p.SelectionSet != nil {
+			for _, selection := range p.SelectionSet.Selections {
+				if selection.Name == "__typename" {
+					root[selection.Alias] = p.Type
+				}
+			}
 		}
+		res = []interface{}{root}
 	}
 
 	g, ctx := errgroup.WithContext(ctx)
